@@ -73,6 +73,11 @@ Proof. exact (fun c input s R => all_joined s (reachable_inv cur c input s cur_g
 Theorem C17_no_panic : forall c input s, reachable cur c input s -> s_panic s = false.
 Proof. exact (fun c input s R => match R with ex_intro _ ls H => no_panic_run cur ls (init c input) s cur_handled eq_refl H end). Qed.
 
+(* a signal at ANY instant -- also after the controller has already raised the flag for a fatal error or the cap --
+   only makes the handler store the flag: the process is never exited with its workers still running *)
+Theorem C17_single_signal_is_graceful : forall c input s, reachable cur c input s -> s_hardexit s = false.
+Proof. exact (fun c input s R => match R with ex_intro _ ls H => no_hard_exit_run cur ls (init c input) s eq_refl eq_refl H end). Qed.
+
 (* whole packets: whenever the writer thread stops (after any number k of received batches) and whatever the
    flush threshold, what has reached the destination is the serialisation of a prefix of the packets *)
 Theorem C17_whole_packets_at_exit : forall max (batches : list (list cdp)) k,
@@ -91,6 +96,7 @@ Print Assumptions C17_fatal_raises_stop.
 Print Assumptions C17_cap_raises_stop.
 Print Assumptions C17_all_joined.
 Print Assumptions C17_no_panic.
+Print Assumptions C17_single_signal_is_graceful.
 Print Assumptions C17_whole_packets_at_exit.
 Print Assumptions C17_whole_packets_always.
 Print Assumptions C17_source_shape.
